@@ -5,6 +5,7 @@ need no copying.  Loops are cut at their invariants, calls are replaced by calle
 statement that can raise under assumption A5 forks an exceptional path.
 """
 import ast
+import os
 import threading
 import time
 
@@ -145,6 +146,53 @@ def _has_quant(f):
     return False
 
 
+class _Watchdog:
+    def __init__(self):
+        self.lock = threading.Lock()
+        self.active = False
+        self.fired = False
+        self.cpu_dl = self.wall_dl = self.cpu0 = self.last_fire = 0.0
+        self.pid = os.getpid()
+        th = threading.Thread(target=self.loop, daemon=True)
+        th.start()
+
+    def loop(self):
+        ctx = z3.main_ctx()
+        while True:
+            time.sleep(0.004)
+            with self.lock:  # test-and-interrupt is atomic w.r.t. disarm(): no interrupt can leak into a later check
+                if self.active and (time.process_time() > self.cpu_dl or time.time() > self.wall_dl):
+                    # z3 clears / overlooks a cancel request in some phases: keep asking (every 100 ms) until check() returns
+                    if not self.fired or time.time() - self.last_fire > 0.1:
+                        ctx.interrupt()
+                        self.fired = True
+                        self.last_fire = time.time()
+
+    def arm(self, secs):
+        with self.lock:
+            self.cpu0 = time.process_time()
+            self.cpu_dl = self.cpu0 + secs
+            self.wall_dl = time.time() + secs * 8 + 2
+            self.fired = False
+            self.active = True
+
+    def disarm(self):
+        with self.lock:
+            self.active = False
+            return time.process_time() - self.cpu0
+
+
+_WD = None
+
+
+def _watchdog():
+    """One watchdog thread per process (threads do not survive fork)."""
+    global _WD
+    if _WD is None or _WD.pid != os.getpid():
+        _WD = _Watchdog()
+    return _WD
+
+
 class Exec:
     def __init__(self, mode="q", k=4, timeout_ms=10000, feas_ms=400, verbose=False, feas2_ms=60):
         self.feas2_ms = feas2_ms
@@ -181,23 +229,26 @@ class Exec:
 
     def _solver(self, ms):
         s = z3.Solver()
-        s.set("timeout", ms)
+        # the budget `ms` is CPU time of this process, enforced by the watchdog below; z3's own (wall-clock) timeout
+        # is only a distant safety net, so that a busy machine stretches the run instead of flipping verdicts
+        s.set("timeout", int(ms * 8 + 2000))
         s._budget_ms = ms
         return s
 
     def zcheck(self, s):
-        """solver.check() with a hard stop: z3's own timeout is not honoured in every phase (a
-        matching loop can spin for minutes), so a watchdog interrupts the context after the budget."""
+        """solver.check() under a CPU-time budget.  z3's own timeout counts wall-clock time (so verdicts flipped to
+        `unknown` when all cores were busy) and is not honoured in every phase (a matching loop can spin for
+        minutes): a per-process watchdog thread interrupts the context once this process has consumed the budget
+        in CPU seconds (or 8x the budget in wall-clock seconds)."""
         ms = getattr(s, "_budget_ms", self.timeout_ms)
-        t = threading.Timer(ms / 1000.0 * 1.5 + 1.0, z3.main_ctx().interrupt)
-        t.daemon = True
-        t.start()
+        wd = _watchdog()
+        wd.arm(ms / 1000.0)
         try:
             return s.check()
         except z3.Z3Exception:
             return z3.unknown
         finally:
-            t.cancel()
+            self.last_cpu = wd.disarm()
 
     def _check(self, extra, ground_only, ms):
         self.stats["feas"] += 1
@@ -308,13 +359,39 @@ class Exec:
             return
         self.stats["queries"] += 1
         t = time.time()
-        s = self._solver(self.timeout_ms)
-        s.add(self.c.axioms)
-        s.add(self.pc)
-        s.add(z3.Not(goal))
-        r = self.zcheck(s)
-        if r == z3.unknown and time.time() - t < self.timeout_ms / 2000.0:
-            r = self.zcheck(s)  # a stale watchdog interrupt must not decide a verdict: ask again
+        if self.mode == "q":
+            # portfolio: quantified proofs are found by luck of the instantiation order (the same valid goal takes
+            # 0.2 s or > 60 s depending on hash / axiom order), so instead of one long attempt: two short attempts
+            # with different solver seeds, one attempt on the goal alone (valid formulas such as alpha-equal
+            # counting terms need no hypotheses), then the full budget.  Only `unsat` ends the schedule early;
+            # every attempt uses a subset of the same hypotheses, so this is as sound as a single call.
+            T = self.timeout_ms
+            schedule = [(max(T // 5, 2000), 0, True), (min(T, 4000), 0, "ground"), (max(T // 5, 2000), 11, True), (min(T, 5000), 0, False), (T, 23, True)]
+        else:
+            schedule = [(self.timeout_ms, 0, True)]
+        r = z3.unknown
+        for ms, seed, hyps in schedule:
+            s = self._solver(ms)
+            if seed:
+                s.set("random_seed", seed)
+            if hyps == "ground":
+                # only the quantifier-free hypotheses (branch conditions, argument facts): enough when the goal is
+                # an identity up to the path's case distinction, and immune to the instantiation lottery
+                for f in self.c.axioms + self.pc:
+                    q = self._qmemo.get(id(f))
+                    if q is None:
+                        q = self._qmemo[id(f)] = (_has_quant(f), f)
+                    if not q[0]:
+                        s.add(f)
+            elif hyps:
+                s.add(self.c.axioms)
+                s.add(self.pc)
+            s.add(z3.Not(goal))
+            r = self.zcheck(s)
+            if r == z3.unsat or (r == z3.sat and hyps is True):
+                break
+            if r == z3.sat:
+                r = z3.unknown  # fewer hypotheses: a model says nothing
         secs = time.time() - t
         model = None
         reason = None
